@@ -376,19 +376,32 @@ def range_line(name, ddstr, ddast, trs, rnd):
                                                         ','.join('%d-%d' % t for t in trs))
 
 
-def cal_probes(zn, wb, we, all_trs):
-    pts = set()
-    for v in (wb, we):
-        pts.update((v - 1, v, v + 1))
-    d0 = (wb + off_at(zn, wb)) // 86400
-    d1 = (we + off_at(zn, we)) // 86400
+def spec_bounds(zn, lo, hi, all_trs):
+    """the instants of both boundaries of every written time range on every day that can reach [lo, hi] - the Python
+    mirror of TpCalObs.tp_spec_bounds (the oracle recomputes them in Gallina and refuses to decide, class 'probes',
+    when the probes of the case do not cover them)"""
+    out = set()
+    d0 = (lo + off_at(zn, lo)) // 86400
+    d1 = (hi + off_at(zn, hi)) // 86400
     for d in range(d0 - 3, d1 + 2):
         for tb, te in all_trs:
             te2 = te + 86400 if te <= tb else te
             for l in (d * 86400 + tb, d * 86400 + te2):
                 u = mk_local(zn, l)
-                if wb - 7200 <= u <= we + 7200:
-                    pts.update((u - 1, u, u + 1))
+                if lo <= u <= hi:
+                    out.add(u)
+    return sorted(out)
+
+
+def cal_probes(zn, wb, we, all_trs):
+    pts = set()
+    for v in (wb, we):
+        pts.update((v - 1, v, v + 1))
+    bounds = spec_bounds(zn, wb - 7200, we + 7200, all_trs)
+    for u in bounds:
+        pts.update((u - 1, u, u + 1))
+    for u1, u2 in zip(bounds, bounds[1:]):
+        pts.add((u1 + u2) // 2)                            # the middle of every stretch on which the statement is constant
     t = wb - wb % 1800
     while t <= we + 1800:
         pts.add(t)
@@ -494,13 +507,13 @@ def gen_m2(rnd, tier):
                 body.append(range_line(nm, s, a, trs, rnd))
                 if rnd.random() < 0.3:
                     add_entries(nm, 1, ['spec'], shapes)
-        lines.append('tp_pts ' + ','.join(str(p) for p in cal_probes(zn, wb, we, all_trs)))
+        # the timer path: extend the window
+        we2 = we + rnd.choice((300, 3600, 86400)) if rnd.random() < 0.25 else None
+        lines.append('tp_pts ' + ','.join(str(p) for p in cal_probes(zn, wb, we2 or we, all_trs)))
         lines += body
         for nm in reversed(names):
             lines.append('tp_upd name=%s b=%d e=%d clear=1' % (nm, wb, we))
-        if rnd.random() < 0.25:
-            # the timer path: extend the window
-            we2 = we + rnd.choice((300, 3600, 86400))
+        if we2 is not None:
             for nm in reversed(names):
                 lines.append('tp_upd name=%s b=%d e=%d clear=0' % (nm, we, we2))
         cases.append({'lines': lines, 'tags': {'family': fam, 'zone': zn, 'transition_window': bool(want_tr)}})
@@ -534,6 +547,19 @@ LENIENT_K = ['day 1 2 3', 'day +5', 'day 007', 'monday 2 march extra', 'day 1- 1
              'monday 1 - 3', 'march 1 - april 5', '2034-03-25 - 2034-03-31']
 LENIENT_V = ['9:0-17:0', '09:00:30-17:00:15', '25:00-26:00', '09:60-10:00', '09:00-09:00', '+9:00-17:00', '24:00-24:00', '1:2:3-4:5:6', '00:00-48:00',
              '22:00-06:00', '00:00-24:00']
+
+
+def written_trs(v):
+    """(begin, end) in seconds of the day as written, of an ACCEPTED time range list (only used to place probes)"""
+    out = []
+    for part in v.split(','):
+        a, b = part.split('-')
+
+        def tod(x):
+            f = [int(y) for y in x.split(':')] + [0]
+            return f[0] * 3600 + f[1] * 60 + f[2]
+        out.append((tod(a), tod(b)))
+    return out
 
 
 def mutate(rnd, t):
@@ -606,7 +632,7 @@ def gen_parse_families(rnd, tier):
             wb = mk_local(zn, days_from_civil(y, m, d) * 86400) + rnd.choice((0, 3600 * 6, 43200))
             we = wb + 8 * 86400
             lines = ['now %d' % T0, tz_line(zn, wb - 5 * 86400, we + 5 * 86400),
-                     'tp_pts ' + ','.join(str(p) for p in cal_probes(zn, wb, we, [(0, 86400), (32400, 61200)])), 'tp_new name=a',
+                     'tp_pts ' + ','.join(str(p) for p in cal_probes(zn, wb, we, [(0, 86400), (32400, 61200)] + written_trs(v))), 'tp_new name=a',
                      'tp_range name=a k=%s v=%s' % (hx(k), hx(v)), 'tp_upd name=a b=%d e=%d clear=1' % (wb, we)]
             out.append({'lines': lines, 'tags': {'family': 'm2-parse-lenient', 'zone': zn}})
     return out
@@ -854,6 +880,8 @@ def classify(case, detail, impl_lines):
             return 'stride-dst'
         if detail.endswith('class=5'):
             return 'is-inside'
+        if detail.endswith('class=7'):
+            return 'probes'
         return 'calendar'
     if 'violates-C08 remove' in detail:
         return 'remove-segment'
